@@ -54,6 +54,13 @@ func (r *Runner) DoMode(op string, args []string, tag string, nontrivial bool, d
 	r.Add(c)
 }
 
+// DoAllowErr is Do for inputs on which the property lets the library refuse with an error
+// (but never return a different answer).
+func (r *Runner) DoAllowErr(op string, args []string, tag string, nontrivial bool, desc string) {
+	ans, direct := eval(op, args)
+	r.Add(&Case{Op: op, Args: args, Go: ans, Mode: ops[op].mode, Direct: direct, NonTrivial: nontrivial, Tag: tag, Desc: desc, AllowGoErr: true})
+}
+
 // drift cases are batched separately: they never produce failures
 var driftBatch []*Case
 
